@@ -3,20 +3,50 @@
   optional comment that `flatten.py: flattenSubroutines` attaches to every subroutine entry label
   (the subroutine's name, unescaped):
 
-      comment = "\n// {}\n".format(self.comment) if self.comment is not None else ""
+      comment = ""
+      if self.comment is not None:
+          lines = self.comment.splitlines() or [""]
+          comment = "\n{}\n".format("\n".join("// {}".format(ln) for ln in lines))
       return "{}{}:".format(comment, self.label.getLabel())
 
-  and of the split of a text into lines.  Core Lean only.
+  and of the split of a text into lines.  `str.splitlines()` is `Models.Annot.splitlines`
+  (ten line boundaries, `\r\n` is one).  Core Lean and model files only.
 -/
+import PyTealV.Models.Annot
 namespace PyTealV.Models.LabelText
+open PyTealV.Models.Annot
 
 def assemble (comment : Option String) (label : String) : String :=
   (match comment with
-   | some c => "\n// " ++ c ++ "\n"
+   | some c => "\n" ++ "\n".intercalate (headerCommentLines c) ++ "\n"
    | none => "") ++ label ++ ":"
 
-/-- the same on character lists (what the theorems talk about) -/
+/-! the same on character lists (what the theorems talk about) -/
+
+/-- `comment.splitlines() or [""]` -/
+def piecesChars (c : List Char) : List (List Char) :=
+  match splitlinesChars c with
+  | [] => [[]]
+  | ps => ps
+
+/-- `"// {}".format(ln)` for every piece -/
+def commentLinesChars (c : List Char) : List (List Char) :=
+  (piecesChars c).map (fun p => '/' :: '/' :: ' ' :: p)
+
+/-- `"\n".join(ls)` -/
+def joinNl : List (List Char) → List Char
+  | [] => []
+  | [a] => a
+  | a :: b :: rest => a ++ '\n' :: joinNl (b :: rest)
+
 def assembleChars (comment : Option (List Char)) (label : List Char) : List Char :=
+  (match comment with
+   | some c => '\n' :: joinNl (commentLinesChars c) ++ ['\n']
+   | none => []) ++ label ++ [':']
+
+/-- the text BEFORE the repair 90c7383 (`"\n// {}\n".format(self.comment)`: the raw comment after
+    `// `); kept only for the regression example of `Proofs/C04.lean` -/
+def assembleCharsOld (comment : Option (List Char)) (label : List Char) : List Char :=
   (match comment with
    | some c => ['\n', '/', '/', ' '] ++ c ++ ['\n']
    | none => []) ++ label ++ [':']
